@@ -230,3 +230,25 @@ package scanner
 //@ ensures [no-matcher-configured-means-match-everything] opts.Matcher == nil ==> typeof(result.opts.Matcher) == *MatchAll
 //@ ensures [options-are-the-callers] result != nil && result.opts.PrecertOnly == opts.PrecertOnly && result.opts.NumWorkers == opts.NumWorkers && result.opts.BufferSize == opts.BufferSize && result.opts.FetcherOptions == opts.FetcherOptions
 //@ ensures [fetches-with-its-own-copy-of-the-options] result.fetcher != nil && result.fetcher.opts == &result.opts.FetcherOptions && result.fetcher.client == client
+
+// The two trivial matchers, because NewScanner's default rests on the first: MatchAll selects every
+// certificate and precertificate, MatchNone selects none.
+//@ func (MatchAll).CertificateMatches
+//@ props C16
+//@ pure
+//@ ensures [selects-every-certificate] result
+
+//@ func (MatchAll).PrecertificateMatches
+//@ props C16
+//@ pure
+//@ ensures [selects-every-precertificate] result
+
+//@ func (MatchNone).CertificateMatches
+//@ props C16
+//@ pure
+//@ ensures [selects-no-certificate] !result
+
+//@ func (MatchNone).PrecertificateMatches
+//@ props C16
+//@ pure
+//@ ensures [selects-no-precertificate] !result
